@@ -5,6 +5,7 @@ from fractions import Fraction
 import numpy as np
 
 import common
+import ticc_util as tu
 from common import frac_str, show_list
 
 LEVEL = "proof"
@@ -196,3 +197,44 @@ def run(ctx):
         ctx.case(key, nontrivial, sample={"T": T, "K": K, "beta_kind": c["beta_kind"], "labels": labels,
                                           "cost": str(exact)} if T <= 6 else None)
     ctx.extra["strict_same_path_as_model"] = strict_same
+
+
+    # ---------------- kernel calls of real runs, replayed exactly: every double is a rational, so the model
+    # computes the exact optimum of the real table; the float kernel must be optimal up to rounding
+    if ctx.replay is None:
+        import math
+        calls = []
+        for _ in range(4 if ctx.quick() else 40):
+            cfg = tu.gen_config(ctx.rng)
+            res, tr, err, series = tu.execute(cfg, record_states=False)
+            if tr is not None:
+                for call in tr.kernel_calls[:3]:
+                    if call["table"].shape[0] <= 160:
+                        calls.append((cfg, call))
+        lines = []
+        for cfg, call in calls:
+            table, kb = call["table"], call["beta"]
+            K = table.shape[1]
+            rows = show_list(table.tolist(), lambda r: show_list(r, lambda x: frac_str(Fraction(x))), ";")
+            if isinstance(kb, np.ndarray):
+                lines.append(f"viterbi {K} vector {show_list(kb.tolist(), lambda x: frac_str(Fraction(float(x))))} {rows}")
+            else:
+                lines.append(f"viterbi {K} scalar {frac_str(Fraction(float(kb)))} {rows}")
+        for (cfg, call), mo in zip(calls, ctx.driver.run(lines)):
+            mlabels, mcost = mo.split(" ")
+            table, kb = call["table"], call["beta"]
+            T = table.shape[0]
+            betas = [Fraction(float(x)) for x in kb] if isinstance(kb, np.ndarray) else [Fraction(float(kb))] * T
+            ftab = [[Fraction(x) for x in row] for row in table.tolist()]
+            exact = total_cost(ftab, betas, call["labels"])
+            scale = float(sum(abs(x) for row in ftab for x in row)) + float(sum(betas))
+            eps = 1e-12 * (1.0 + scale)
+            if float(exact - Fraction(mcost)) > eps:
+                ctx.violation("impl-violation",
+                              f"real-run cost table: returned labelling costs {float(exact)}, exact optimum is {float(Fraction(mcost))}",
+                              dict(cfg, kernel_call_T=T), {"site": "optimality-real-table"})
+            if abs(call["cost"] - float(exact)) > eps:
+                ctx.violation("impl-violation", "real-run cost table: reported cost is not the cost of the returned labelling (beyond rounding)",
+                              dict(cfg, kernel_call_T=T), {"site": "cost-of-path-real-table"})
+            ctx.count("real_run_kernel_calls")
+            ctx.case(("realcall", table.tobytes()), nontrivial=T >= 2 and table.shape[1] >= 2)
